@@ -62,6 +62,7 @@ func main() {
 	par := flag.Int("j", 12, "parallel queries")
 	lemmas := flag.String("lemmas", "", "comma-separated lemma names to check ('all' = every lemma)")
 	dump := flag.String("dump", "", "dump SSA of function key and exit")
+	sweep := flag.String("sweep", "", "safety sweep: select every function (with or without contract) whose short key contains this substring ('.' = all)")
 	onlyFile := flag.String("only", "", "file with obligation names: solve only these (others are generated and listed as skipped)")
 	flag.Parse()
 	t0 := time.Now()
@@ -91,7 +92,11 @@ func main() {
 	var keys []string
 	for k := range eng.Funcs {
 		sk := shortKey(k)
-		if len(want) > 0 {
+		if *sweep != "" {
+			if strings.Contains(sk, *sweep) && len(eng.Funcs[k].Blocks) > 0 && !strings.Contains(sk, "mocks") {
+				keys = append(keys, k)
+			}
+		} else if len(want) > 0 {
 			if want[k] || want[sk] {
 				keys = append(keys, k)
 			}
